@@ -437,8 +437,8 @@ func runC03(tier string) int {
 			}
 		}
 	}
-	brkDone := r.Parallel(uint64(len(brk))*3, func(w int, idx uint64) {
-		p, form := brk[idx/3], int(idx%3)
+	brkDone := r.Parallel(uint64(len(brk))*4, func(w int, idx uint64) {
+		p, form := brk[idx/4], int(idx%4)
 		scripts := []*model.Script{p.Script}
 		src, nrep := wrapJumpsInPoryswitch(model.Print(scripts), form)
 		if nrep == 0 {
@@ -529,8 +529,12 @@ func wrapJumpsInPoryswitch(src string, form int) (string, int) {
 			out = append(out, ind+"poryswitch(PV) {", ind+"\tSEL {", ind+"\t\t"+t, ind+"\t}", ind+"\t_ {", ind+"\t\tother", ind+"\t}", ind+"}")
 		case 1:
 			out = append(out, ind+"poryswitch(PV) {", ind+"\tSEL: "+t, ind+"\t_: other", ind+"}")
-		default:
+		case 2:
 			out = append(out, ind+"poryswitch(PV) {", ind+"\tNOPE { other }", ind+"\t_ { "+t+" }", ind+"}")
+		default:
+			// form 3 (round 13): the jump stays where it is and is preceded by a poryswitch whose selected case is empty -
+			// one source statement that contributes no statement at all
+			out = append(out, ind+"poryswitch(PV) {", ind+"\tSEL {}", ind+"\t_ { other }", ind+"}", l)
 		}
 	}
 	return strings.Join(out, "\n"), n
